@@ -18,10 +18,9 @@ pub async fn list_files(site: &str, date: &NaiveDate) -> crate::result::Result<V
         .objects
         .iter()
         .map(|object| {
-            let key_parts = object.key.split('/');
-            let name = key_parts.skip(4).collect::<String>();
+            let name = object.key.split('/').last().unwrap_or(object.key.as_ref());
 
-            Identifier::new(name)
+            Identifier::new(name.to_string())
         })
         .collect();
 
